@@ -199,4 +199,35 @@ def findSubseq (seq sub : List Int) : Except Err (List Nat) :=
       (fun k => corrAt seq sub k = target)
     .ok (cands.filter (fun k => (seq.drop k).take sub.length = sub))
 
+/-! ### find_vals, find_rows, find_unique
+
+Float and mixed int/float inputs of the correspondence check are dyadic (`k/4`); the harness
+sends them scaled by 4, so `Int` is the exact semantics of the float comparisons. -/
+
+/-- `m.ravel(order="F")` of a matrix given by rows -/
+def colMajor (rows : List (List Int)) : List Int :=
+  match rows with
+  | [] => []
+  | r :: _ => (List.range r.length).flatMap fun j => rows.filterMap (fun row => row[j]?)
+
+/-- `find_vals(m, v)`: `pv |= m == i` for every `i` in `v`, on the column-major flattening. -/
+def findVals (rows : List (List Int)) (v : List Int) : List Bool :=
+  (colMajor rows).map fun x => v.foldl (fun acc i => acc || decide (x = i)) false
+
+/-- `find_rows(matrix, row)`: `abs(matrix - row).sum(axis=1) == 0`; a row of another length
+gives an empty vector. -/
+def findRows (rows : List (List Int)) (c : Nat) (row : List Int) : List Bool :=
+  if c ≠ row.length then []
+  else rows.map fun r => decide (((r.zip row).map fun p => (p.1 - p.2).natAbs).sum = 0)
+
+/-- `find_unique(y, tol)` with `tol = tn/td` (`td > 0`): `stol = |tol * max|diff||`,
+`pv = [True] ++ (|diff| > stol)`; fewer than two values: `max` of an empty array, `ValueError`. -/
+def findUnique (y : List Int) (tn : Int) (td : Nat) : Except Err (List Bool) :=
+  let m := diffs y
+  match m with
+  | [] => .error .value
+  | _ =>
+    let mx := m.foldl (fun acc d => max acc d.natAbs) 0
+    .ok (true :: m.map fun d => decide (tn.natAbs * mx < d.natAbs * td))
+
 end PyYetiVerif.Locate
